@@ -747,12 +747,147 @@ Definition x_copy_bytes_continue (written len : N) : bool :=\n  {}.\n\
 Definition x_copy_bytes_request (written len bsize : N) : N :=\n  {}.\n", src.path, w.span().start().line, cond, req))
 }
 
+/// `Config::from(&Opts)`: the expression of field `field` in the struct literal
+fn struct_field_expr(src: &Src, fname: &str, field: &str) -> R<(Expr, usize)> {
+    let (_, block) = find_fn(src, fname)?;
+    struct V<'a> { field: &'a str, out: Option<(Expr, usize)> }
+    impl<'ast, 'a> Visit<'ast> for V<'a> {
+        fn visit_field_value(&mut self, f: &'ast syn::FieldValue) {
+            if let syn::Member::Named(i) = &f.member {
+                if i == self.field && self.out.is_none() { self.out = Some((f.expr.clone(), f.span().start().line)); }
+            }
+            syn::visit::visit_field_value(self, f)
+        }
+    }
+    let mut v = V { field, out: None };
+    v.visit_block(block);
+    v.out.ok_or(format!("field `{}` not found in fn {}", field, fname))
+}
+
+fn config_block_size(src: &Src) -> R<String> {
+    let (e, line) = struct_field_expr(src, "from", "block_size")?;
+    let mut tr = Tr::new();
+    tr.consts.insert("usize_MAX".into(), "18446744073709551615".into());
+    tr.consts.insert("u64_MAX".into(), "18446744073709551615".into());
+    let v = tr.expr(&e)?;
+    for f in &tr.free {
+        if !["opts_no_progress", "opts_block_size"].contains(&f.as_str()) { return Err(format!("Config::from: unexpected variable {}", f)); }
+    }
+    Ok(format!("(* {}:{}  Config::from(&Opts): the block size (usize::MAX under --no-progress) *)\nDefinition x_config_block_size (opts_no_progress : bool) (opts_block_size : N) : N :=\n  {}.\n", src.path, line, v))
+}
+
+/// next_backup_num: `Ok(current + 1)` and the `.unwrap_or(<lit>)` default
+fn next_backup(src: &Src) -> R<String> {
+    let (_, block) = find_fn(src, "next_backup_num")?;
+    let n = block.stmts.len();
+    let tail = match &block.stmts[n - 1] { Stmt::Expr(e, None) => e, _ => return Err("next_backup_num: no tail".into()) };
+    let mut tr = Tr::new();
+    let v = tr.expr(tail)?;
+    for f in &tr.free { if f != "current" { return Err(format!("next_backup_num: unexpected variable {}", f)); } }
+    let (dflt, l2) = method_literal(src, "next_backup_num", "unwrap_or")?;
+    Ok(format!("(* {}:{}  next_backup_num: the number chosen from the largest existing one; {}:{} the default when there is none *)\nDefinition x_next_backup_from_max (current : N) : N :=\n  {}.\nDefinition x_backup_max_default : N := {}.\n",
+               src.path, tail.span().start().line, src.path, l2, v, dflt))
+}
+
+fn str_const(src: &Src, name: &str) -> R<(String, usize)> {
+    for it in &src.file.items {
+        if let Item::Const(c) = it {
+            if c.ident == name {
+                if let Expr::Lit(l) = &*c.expr {
+                    if let Lit::Str(sl) = &l.lit { return Ok((sl.value(), c.span().start().line)); }
+                }
+            }
+        }
+    }
+    Err(format!("string const {} not found", name))
+}
+
+/// CopyHandle::try_reflink as a decision table over (mode, did the clone work)
+fn try_reflink(src: &Src) -> R<String> {
+    let (_, block) = find_fn(src, "try_reflink")?;
+    let m = match block.stmts.last() { Some(Stmt::Expr(Expr::Match(m), _)) => m, _ => return Err("try_reflink: body is not a match".into()) };
+    fn mode_code(n: &str) -> Option<u64> { match n { "Auto" => Some(0), "Always" => Some(1), "Never" => Some(2), _ => None } }
+    fn pat_modes(p: &Pat, out: &mut Vec<u64>) -> R<()> {
+        match p {
+            Pat::Or(o) => { for c in &o.cases { pat_modes(c, out)?; } Ok(()) }
+            Pat::Path(pp) => { let l = pp.path.segments.last().unwrap().ident.to_string(); out.push(mode_code(&l).ok_or(format!("unknown mode {}", l))?); Ok(()) }
+            Pat::Ident(i) => { let l = i.ident.to_string(); out.push(mode_code(&l).ok_or(format!("unknown mode {}", l))?); Ok(()) }
+            _ => Err("try_reflink: unsupported pattern".into()),
+        }
+    }
+    fn outcome(e: &Expr) -> R<String> {
+        // Ok(true) -> 1, Ok(false) -> 0, Err(_) -> 2, if/else chains
+        match e {
+            Expr::Block(b) => block_outcome(&b.block),
+            Expr::If(i) => {
+                let c = cond(&i.cond)?;
+                let t = block_outcome(&i.then_branch)?;
+                let f = outcome(&i.else_branch.as_ref().ok_or("try_reflink: if without else")?.1)?;
+                Ok(format!("(if {} then {} else {})", c, t, f))
+            }
+            Expr::Call(c) => {
+                let f = flat_name(&c.func).unwrap_or_default();
+                let a = c.args.first().map(|x| quote::ToTokens::to_token_stream(x).to_string()).unwrap_or_default();
+                match (f.as_str(), a.as_str()) { ("Ok", "true") => Ok("1".into()), ("Ok", "false") => Ok("0".into()), ("Err", _) => Ok("2".into()),
+                    _ => Err(format!("try_reflink: unsupported result {}({})", f, a)) }
+            }
+            Expr::Return(r) => outcome(r.expr.as_ref().ok_or("return without value")?),
+            _ => Err(format!("try_reflink: unsupported expression at line {}", e.span().start().line)),
+        }
+    }
+    fn cond(e: &Expr) -> R<String> {
+        match e {
+            Expr::Path(p) if p.path.is_ident("worked") => Ok("worked".into()),
+            Expr::Binary(b) if matches!(b.op, BinOp::Eq(_)) => {
+                let l = flat_name(&b.left).unwrap_or_default();
+                let r = flat_name(&b.right).unwrap_or_default();
+                if l.ends_with("config_reflink") {
+                    let m = mode_code(r.rsplit('_').next().unwrap()).ok_or("unknown mode in comparison")?;
+                    Ok(format!("(mode =? {})", m))
+                } else { Err("try_reflink: unsupported comparison".into()) }
+            }
+            _ => Err("try_reflink: unsupported condition".into()),
+        }
+    }
+    fn block_outcome(b: &Block) -> R<String> {
+        for (k, st) in b.stmts.iter().enumerate() {
+            match st {
+                Stmt::Local(l) => {
+                    // `let worked = reflink(..)?;`
+                    let name = pat_ident(&l.pat).unwrap_or_default();
+                    let init = quote::ToTokens::to_token_stream(&l.init.as_ref().ok_or("let without init")?.expr).to_string();
+                    if name != "worked" || !init.replace(' ', "").starts_with("reflink(") { return Err("try_reflink: unexpected let".into()); }
+                }
+                Stmt::Macro(_) => {}
+                Stmt::Expr(e, _) if k + 1 == b.stmts.len() => return outcome(e),
+                Stmt::Expr(Expr::Macro(_), _) => {}
+                _ => return Err("try_reflink: unsupported statement".into()),
+            }
+        }
+        Err("try_reflink: empty block".into())
+    }
+    let mut table = String::from("2");
+    let mut issues = String::from("false");
+    for arm in m.arms.iter().rev() {
+        let mut modes = vec![];
+        pat_modes(&arm.pat, &mut modes)?;
+        let c = modes.iter().map(|x| format!("(mode =? {})", x)).collect::<Vec<_>>().join(" || ");
+        let o = outcome(&arm.body)?;
+        let calls = quote::ToTokens::to_token_stream(&arm.body).to_string().replace(' ', "").contains("reflink(");
+        table = format!("(if {} then {} else {})", c, o, table);
+        issues = format!("(if {} then {} else {})", c, calls, issues);
+    }
+    Ok(format!("(* {}:{}  CopyHandle::try_reflink: mode 0 auto, 1 always, 2 never; result 1 = Ok(true), 0 = Ok(false), 2 = Err *)\nDefinition x_try_reflink (mode : N) (worked : bool) : N :=\n  {}.\nDefinition x_try_reflink_issues_clone (mode : N) : bool :=\n  {}.\n",
+               src.path, m.span().start().line, table, issues))
+}
+
+
 fn main() {
     let root = std::env::args().nth(1).unwrap_or_else(|| "/repo".to_string());
     let root = Path::new(&root);
     let mut out = String::new();
     out.push_str("(* Extracted.v — GENERATED by /verif/xlate from the current source of the repository on every run.\n   Do not edit.  See xlate/src/main.rs for the supported Rust subset; coq/proofs/ExtractedOk.v proves that\n   every definition below equals the hand-written model's. *)\n");
-    out.push_str("From XcpModel Require Import Base Extents.\n\n");
+    out.push_str("From XcpModel Require Import Base Extents.\nFrom Coq Require Import String.\nLocal Open Scope string_scope.\nLocal Open Scope N_scope.\nLocal Open Scope list_scope.\n\n");
     let mut failures = vec![];
     let mut emit = |label: &str, r: R<String>, out: &mut String| match r {
         Ok(s) => { out.push_str(&s); out.push('\n'); }
@@ -779,8 +914,21 @@ fn main() {
         Ok(src) => emit("send", send_condition(&src), &mut out),
         Err(e) => emit("feedback.rs", Err(e), &mut out),
     }
+    match load(root, "src/options.rs") {
+        Ok(src) => emit("Config::from", config_block_size(&src), &mut out),
+        Err(e) => emit("options.rs", Err(e), &mut out),
+    }
+    match load(root, "libxcp/src/backup.rs") {
+        Ok(src) => {
+            emit("next_backup_num", next_backup(&src), &mut out);
+            emit("BAK_PATTTERN", str_const(&src, "BAK_PATTTERN").map(|(v, l)|
+                format!("(* {}:{}  the regular expression a backup suffix must match *)\nDefinition x_backup_pattern : string := \"{}\".\n", src.path, l, v.replace('"', "\"\""))), &mut out);
+        }
+        Err(e) => emit("backup.rs", Err(e), &mut out),
+    }
     match load(root, "libxcp/src/operations.rs") {
         Ok(src) => {
+            emit("try_reflink", try_reflink(&src), &mut out);
             emit("copy_bytes", copy_bytes_loop(&src), &mut out);
             emit("finalise_copy", finalise_order(&src).map(|(v, l)| {
                 let items: Vec<String> = v.iter().map(|(c, n)| format!("({}, {})", c, n)).collect();
